@@ -3145,3 +3145,63 @@ Section GeneralTotal.
     destruct Hs3 as [->|Hw3]; [left; reflexivity|right; right]. split; [exact Hw3|apply keybytes_to_hex_valid; exact Hbl].
   Qed.
 End GeneralTotal.
+
+(* ------------------------------------------------------------------ towards completeness of the two-edge branch *)
+
+Section NoEmptyRange.
+  Variable H : list N -> list N.
+  Notation pv := (pv H).
+
+  Lemma of_terr_not_empty e : of_terr e <> REmptyRange.
+  Proof. destruct e; discriminate. Qed.
+
+  (* "empty range" is never reported when the right edge key is a key of the trie *)
+  Lemma no_empty_range t : forall p left right v,
+    pv p t -> lk t right = Some v -> unset_internal p left right <> Rerr REmptyRange.
+  Proof.
+    induction t as [|w|rk c' IH|cs' IH|h] using node_ind'; intros p left right v Hp L E.
+    - rewrite lk_empty in L. discriminate.
+    - inversion Hp as [| |t0 e Hw| |]; subst; [|inversion Hw]. discriminate.
+    - inversion Hp as [| |t0 e Hw Ee Le|k0 c0 x Hc|]; subst; [discriminate|].
+      rewrite lk_short in L. destruct (strip rk right) as [r'|] eqn:Es; [|discriminate].
+      apply strip_some in Es. cbn [unset_internal] in E. cbv zeta in E.
+      assert (Fr : bcmp (firstn (length rk) right) rk = Eq).
+      { rewrite Es, firstn_app_exact. unfold bcmp. rewrite slice_lt_irrefl. reflexivity. }
+      rewrite Fr in E.
+      assert (Hedge : forall key rl,
+                match c0 with
+                | NValue _ => Rok URemove
+                | _ => match unset c0 key rl with
+                       | TErr e => Rerr (of_terr e)
+                       | TOk (UKeep x) => Rok (UKeep (NShort rk x))
+                       | TOk URemove => Rerr RPanic
+                       end
+                end <> Rerr REmptyRange).
+      { intros key rl. destruct c0; try discriminate;
+          destruct (unset _ key rl) as [[x|]|e]; try discriminate; intros E0; inversion E0 as [E1]; exact (of_terr_not_empty _ E1). }
+      destruct (bcmp (firstn (length rk) left) rk); try (exact (Hedge _ _ E)).
+      destruct (unset_internal c0 _ _) as [[x|]|e] eqn:Eu; try discriminate.
+      inversion E; subst e. rewrite Es, skipn_app_exact in Eu. exact (IH _ _ _ _ Hc L Eu).
+    - inversion Hp as [| |t0 e Hw Ee Le| |cs0 cs1 Hl Hcs]; subst; [discriminate|].
+      destruct left as [|l0 lr]; [discriminate|]. destruct right as [|r0 rr0]; [discriminate|].
+      rewrite unset_internal_full in E. unfold child in E.
+      destruct (nth_error cs0 (N.to_nat l0)) as [ln|] eqn:Eln; [|discriminate].
+      destruct (nth_error cs0 (N.to_nat r0)) as [rn|] eqn:Ern; [|discriminate].
+      rewrite lk_full in L. destruct (nth_error cs' (N.to_nat r0)) as [rn'|] eqn:Ern'; [|discriminate].
+      destruct (if is_empty ln || is_empty rn then Some true else iface_neq l0 r0 ln rn) as [[|]|] eqn:Fk; [| |discriminate].
+      + unfold ui_fork in E. cbv zeta in E.
+        destruct (child _ l0); [|discriminate]. destruct (unset _ lr false) as [a1|e1]; [|inversion E as [E1]; exact (of_terr_not_empty _ E1)].
+        destruct (apply_act _ l0 a1); [|discriminate]. destruct (child _ r0); [|discriminate].
+        destruct (unset _ rr0 true) as [a2|e2]; [|inversion E as [E1]; exact (of_terr_not_empty _ E1)].
+        destruct (apply_act _ r0 a2); discriminate.
+      + assert (l0 = r0).
+        { destruct (is_empty ln || is_empty rn); [discriminate|].
+          destruct ln, rn; cbn in Fk; try discriminate; inversion Fk as [Fe]; apply negb_false_iff in Fe; apply N.eqb_eq; exact Fe. }
+        subst r0. rewrite Ern in Eln. inversion Eln; subst rn.
+        destruct (unset_internal ln lr rr0) as [a0|e0] eqn:Eu.
+        * destruct (apply_act cs0 l0 a0); discriminate.
+        * inversion E; subst e0. rewrite Forall_forall in IH.
+          exact (IH rn' (nth_error_In _ _ Ern') _ _ _ _ (Hcs _ _ _ Ern Ern') L Eu).
+    - inversion Hp as [| |t0 e Hw| |]; subst. inversion Hw.
+  Qed.
+End NoEmptyRange.
